@@ -397,7 +397,7 @@ with tr_or (o : OrC) : filt :=
 Fixpoint sz_atom (a : Atom) : nat :=
   match a with
   | AtNot _ a' => S (S (sz_atom a'))
-  | AtCall _ _ _ _ _ amore _ => S (S (length amore))
+  | AtCall _ _ _ _ _ amore _ => S (S (S (S (length amore))))
   | AtCmp s1 _ _ s2 => S (S (sz_sum s1 + sz_sum s2))
   | AtArith s => S (S (sz_sum s))
   | AtParen _ e _ => S (S (S (S (sz_or e))))
@@ -431,14 +431,16 @@ Fixpoint wf_args (ms : list OMore) (following : str) : bool :=
   end.
 
 (* inside parentheses the parser first tries an ARITHMETIC reading `( sum )`; `pure_*`: the boolean expression is a
-   single arithmetic atom (possibly parenthesised again), which that reading accepts; `hd_*`: its first atom is not a
-   function call (for which the failure of the arithmetic reading is not proved here) *)
+   single arithmetic atom (possibly parenthesised again), which that reading accepts; `hd_*`: if its first atom is a
+   function call, the layout between the function name and `(` does not start with a non-ASCII whitespace character
+   (U+1680 is both whitespace and PN_CHARS_BASE, so it would be read as part of a prefixed name's prefix) *)
+Definition lay_ascii_head (l : L) : bool := match lay_bytes l with [] => true | b :: _ => b <? 128 end.
 Fixpoint pure_atom (a : Atom) : bool :=
   match a with AtArith _ => true | AtParen _ e _ => pure_or e | _ => false end
 with pure_and (x : AndC) : bool := match x with AndOne a => pure_atom a | AndMore _ _ _ => false end
 with pure_or (o : OrC) : bool := match o with OrOne x => pure_and x | OrMore _ _ _ => false end.
 Fixpoint hd_atom (a : Atom) : bool :=
-  match a with AtCall _ _ _ _ _ _ _ => false | AtParen _ e _ => hd_or e | _ => true end
+  match a with AtCall _ _ _ lp _ _ _ => lay_ascii_head lp | AtParen _ e _ => hd_or e | _ => true end
 with hd_and (x : AndC) : bool := match x with AndOne a => hd_atom a | AndMore x' _ _ => hd_and x' end
 with hd_or (o : OrC) : bool := match o with OrOne x => hd_and x | OrMore o' _ _ => hd_or o' end.
 
